@@ -255,7 +255,42 @@ def first_diff(ta, tb):
     return None
 
 
+def gen_pasha_long(rng, profile=None, thorough=False):
+    profile = profile or rng.choice(["bimodal", "crisscross"])
+    pl = dict(profile=profile, mseed=rng.randrange(0, 200), rf=3, grace=1, max_t=27, workers=4,
+              n_events=rng.choice([900, 1200] if not thorough else [1200, 1600, 2000]),
+              random_seed=rng.randrange(2 ** 31), perturb_seed=rng.randrange(2 ** 31))
+    if profile == "bimodal":
+        pl.update(b_period=rng.choice([14, 16, 18]), d_start=rng.choice([150, 165, 180]), mseed=rng.choice([0, 0, 1, 2]),
+                  level_a=0.1, level_b=rng.choice([0.3, 0.3, 0.35]), n_events=max(pl["n_events"], 900))
+    else:
+        pl.update(rf=rng.choice([3, 3, 2]))
+    return dict(kind="pasha_long", config="hyperband_random", pl=pl)
+
+
+def run_pasha_long_cases(ctx, cases, repo=None):
+    """fresh processes under PYTHONHASHSEED 0 versus 1, 2, 3 (different perturbations of the global generators)"""
+    if not cases:
+        return
+    seeds = [("A", 0), ("B", 1), ("C", 2), ("D", 3)]
+    with ThreadPoolExecutor(max_workers=4) as ex:
+        res = list(ex.map(lambda th: run_worker(th[0], th[1], cases, repo, 1500), seeds))
+    for i, c in enumerate(cases):
+        done = False
+        for (tw, hs), r in zip(seeds[1:], res[1:]):
+            before = len(ctx.violations)
+            if not done:
+                judge(ctx, c, res[0][i], r[i], (0, hs))
+                done = len(ctx.violations) > before
+        tr = res[0][i].get("trace") or []
+        ctx.h("pasha_long", "events>=800" if len(tr) >= 800 else "events<800")
+        ctx.h("pasha_long", "trials>=160" if sum(1 for t in tr if t[0] == "start") >= 160 else "trials<160")
+
+
 def variant_sig(case):
+    if case["kind"] == "pasha_long":
+        return dict(scheduler="hyperband", variant="pasha", searcher="random", check="pasha_long",
+                    profile=case["pl"]["profile"])
     if case["kind"] == "sim":
         return dict(scheduler="sim:" + case["sim"]["kind"], variant=case["sim"]["params"].get("type", case["sim"]["params"].get("searcher")))
     return dict(scheduler=case["kind"], variant=str(case["params"].get("type") or case["params"].get("searcher") or ""),
@@ -313,6 +348,14 @@ def judge(ctx, case, ra, rb, hashseeds, facts=None, funcmap=None):
         ctx.violation("property", "same arguments, seed and history, different outcome: " + what, case=rcase,
                       signature=dict(sig, defect="twin_difference", first_event=str(ev)))
     # statistics
+    if case["kind"] == "pasha_long":
+        tr = ra.get("trace") or []
+        if (hashseeds[1] == 1) or differs:
+            ctx.count(("pasha_long", case), nontrivial=sum(1 for t in tr if t[0] == "start") >= 100 and not ra.get("error"))
+            ctx.h("variant", "hyperband/pasha long (%s)" % case["pl"]["profile"])
+            if ra.get("error"):
+                ctx.h("errors", ra["error"].split(":")[0])
+        return
     if case["kind"] != "sim":
         tr = ra.get("trace") or []
         kinds = {}
@@ -660,6 +703,8 @@ def run(ctx, replay=None):
         for f in sorted(os.listdir(corpus_dir)):
             if f.endswith(".json"):
                 corpus.append(json.load(open(os.path.join(corpus_dir, f)))["case"])
+    corpus_all = corpus
+    corpus = [c for c in corpus_all if c.get("kind") != "pasha_long"]
 
     # targeted search when the generated facts no longer satisfy the theorems
     boost = {}
@@ -705,6 +750,16 @@ def run(ctx, replay=None):
         for c, a, b in zip(cs, ra, rb):
             judge(ctx, c, a, b, hashseeds, facts, funcmap)
     ctx.h("hashseeds", "distinct" if hashseeds[0] != hashseeds[1] else "equal")
+
+    # long PASHA runs (corpus cases of that kind first), PYTHONHASHSEED 0 vs 1..3
+    pasha_cases = [c for c in corpus_all if c.get("kind") == "pasha_long"]
+    pasha_cases.append(gen_pasha_long(rng, "bimodal"))
+    for _ in range(ctx.n(0, 10)):
+        pasha_cases.append(gen_pasha_long(rng, thorough=True))
+    if any(c.startswith("hyperband") for c in boost) and proof_broken:
+        pasha_cases += [gen_pasha_long(rng, "bimodal"), gen_pasha_long(rng, "crisscross")]
+    ctx.sample(dict(kind="long PASHA twin case", case=pasha_cases[-1]))
+    run_pasha_long_cases(ctx, pasha_cases)
 
     # translator / driver self-test by mutation
     try:
